@@ -353,7 +353,7 @@ Proof.
   pose proof (rinv_refl R st Hcl Hb) as H0.
   assert (Hs0 : inR (RN R (length st) (length st)) s).
   { destruct s; simpl in *; auto. left. exact Hs. }
-  destruct e as [sel rules|sel k v|li ci f v|li ci node|li ci k v|li ci lay|li ci ni f v|li ci]; cbn [do_edit].
+  destruct e as [sel rules|sel k v|li ci f v|li ci node|li ci k v|li ci lay|li ci ni f v|li ci|li ci ni k v]; cbn [do_edit].
   - destruct (build (dflt c) rules st) as [st1 r] eqn:Eb.
     destruct (build_inv c _ st st st1 r Hc (inv_refl st) Eb) as (I1 & L1 & V1).
     pose proof (rinv_ext R st st st1 H0 I1) as H1.
@@ -393,6 +393,11 @@ Proof.
                                         inR (RN R (length st) (length st)) (snd kv))
                             (set_langs st s) li (VNone, VNone) Hl (conj I I)) as [_ B]. exact B. }
     apply rinv_set_items; auto. apply remove_nth_elem_inR. apply r_items_of; auto.
+  - set (n := nth_mod (elems st (field st (the_cap st s li ci) (VInt 3))) ni VNone).
+    assert (Hn : inR (RN R (length st) (length st)) n).
+    { apply nth_mod_P; [|exact I]. apply r_elems; auto. apply r_field; auto. apply r_the_cap; auto. }
+    destruct (field st n (VInt 2)) as [| | |l] eqn:Ed; auto.
+    apply rinv_set_field; auto; try apply vkey_scalar. rewrite <- Ed. apply r_field; auto.
 Qed.
 
 (* ---- the world invariant: every caption set owns a closed region, regions are pairwise disjoint --------------------- *)
@@ -820,4 +825,141 @@ Proof.
   intros c rk ri t st st' ri' s n Hc Hk H. unfold read in H. rewrite Hk in H.
   destruct (build (dflt c) (mark_defaults rk t) st) as [st1 s1] eqn:Eb. inversion H; subst.
   eapply snap_build; eauto.
+Qed.
+
+(* ---- every operation keeps the store well formed (needed to chain the write theorems through ANY history) ---------- *)
+Lemma items_of_below : forall st v, wf st -> items_below (length st) (items_of st v).
+Proof.
+  intros st v Hwf. destruct v as [| | |l]; simpl; try constructor.
+  destruct (get st l) as [o|] eqn:Hg; [apply (Hwf l o Hg)|constructor].
+Qed.
+
+Lemma assoc_below : forall n k its x, items_below n its -> assoc k its = Some x -> below n x.
+Proof.
+  intros n k its x H. induction H as [|[k' v'] t [A B] Ht IH]; simpl; [discriminate|].
+  destruct (val_eqb k k'); [intros E; inversion E; subst; exact B|exact IH].
+Qed.
+
+Lemma field_below : forall st v k, wf st -> below (length st) (field st v k).
+Proof.
+  intros st v k Hwf. unfold field. destruct (assoc k (items_of st v)) as [x|] eqn:E; [|exact I].
+  eapply assoc_below; [apply items_of_below; auto|exact E].
+Qed.
+
+Lemma elems_below : forall st v, wf st -> Forall (below (length st)) (elems st v).
+Proof.
+  intros st v Hwf. unfold elems. pose proof (items_of_below st v Hwf) as H. unfold items_below in H.
+  induction H as [|[k x] t [A B] Ht IH]; simpl; [constructor|]. destruct k; simpl; auto.
+Qed.
+
+Lemma the_cap_below : forall st s li ci, wf st -> below (length st) (the_cap st s li ci).
+Proof.
+  intros st s li ci Hwf. unfold the_cap. apply nth_mod_P; [|exact I]. apply elems_below; auto.
+Qed.
+
+Lemma wf_set_items : forall st v its, wf st -> items_below (length st) its -> wf (set_items st v its).
+Proof.
+  intros st v its Hwf Hits. unfold set_items. destruct v as [| | |l]; auto.
+  destruct (get st l) as [o|] eqn:Hg; auto. intros l' o' Hg'. rewrite length_upd.
+  destruct (Nat.eq_dec l l') as [->|Hne].
+  - rewrite get_upd_same in Hg' by (eapply get_some_lt; eauto). inversion Hg'; subst. exact Hits.
+  - rewrite get_upd_other in Hg' by assumption. apply (Hwf l' o' Hg').
+Qed.
+
+Lemma assoc_set_below : forall n k x its, items_below n its -> below n k -> below n x -> items_below n (assoc_set k x its).
+Proof.
+  intros n k x its H Hk Hx. induction H as [|[k' v'] t [A B] Ht IH]; simpl.
+  - constructor; [split; assumption|constructor].
+  - destruct (val_eqb k k'); constructor; auto; split; auto.
+Qed.
+
+Lemma wf_set_field : forall st v k x, wf st -> below (length st) k -> below (length st) x -> wf (set_field st v k x).
+Proof.
+  intros. unfold set_field. apply wf_set_items; auto. apply assoc_set_below; auto. apply items_of_below; auto.
+Qed.
+
+Lemma vkey_below : forall n t, below n (vkey_of_tree t).
+Proof. intros n []; exact I. Qed.
+
+Lemma remove_nth_elem_below : forall n k its, items_below n its -> items_below n (remove_nth_elem k its).
+Proof.
+  intros n k its H. revert k. induction H as [|[a x] t AB Ht IH]; intros k; simpl; [constructor|].
+  destruct a; try (constructor; [exact AB|apply IH]). destruct k; [exact Ht|constructor; [exact AB|apply IH]].
+Qed.
+
+Lemma build_wf : forall c t st st' v,
+  fix2 c = true -> wf st -> build (dflt c) t st = (st', v) ->
+  wf st' /\ (length st <= length st')%nat /\ below (length st') v.
+Proof.
+  intros c t st st' v Hc Hwf H.
+  destruct (build_inv c t st st st' v Hc (inv_refl _) H) as (I1 & L1 & V1).
+  split; [eapply inv_wf; eauto|]. split; [exact L1|]. eapply inr_below; eauto.
+Qed.
+
+Theorem do_edit_wf : forall c st s e,
+  fix2 c = true -> wf st -> wf (do_edit c st s e) /\ (length st <= length (do_edit c st s e))%nat.
+Proof.
+  intros c st s e Hc Hwf.
+  destruct e as [sel rules|sel k v|li ci f v|li ci node|li ci k v|li ci lay|li ci ni f v|li ci|li ci ni k v]; cbn [do_edit].
+  - destruct (build (dflt c) rules st) as [st1 r] eqn:Eb.
+    destruct (build_wf c _ _ _ _ Hc Hwf Eb) as (W1 & L1 & V1).
+    split; [apply wf_set_field; auto; apply vkey_below|rewrite length_set_field; exact L1].
+  - destruct (field st (field st s (VInt 2)) (vkey_of_tree sel)); try (split; [assumption|lia]).
+    split; [apply wf_set_field; auto; apply vkey_below|rewrite length_set_field; lia].
+  - split; [apply wf_set_field; auto; [exact I|apply vkey_below]|rewrite length_set_field; lia].
+  - destruct (build (dflt c) node st) as [st1 n] eqn:Eb.
+    destruct (build_wf c _ _ _ _ Hc Hwf Eb) as (W1 & L1 & V1).
+    split; [|rewrite length_append_item; exact L1].
+    unfold append_item. apply wf_set_items; auto. unfold items_below. apply Forall_app.
+    split; [apply items_of_below; auto|]. constructor; [split; [exact I|exact V1]|constructor].
+  - split; [apply wf_set_field; auto; apply vkey_below|rewrite length_set_field; lia].
+  - destruct (build (dflt c) lay st) as [st1 l] eqn:Eb.
+    destruct (build_wf c _ _ _ _ Hc Hwf Eb) as (W1 & L1 & V1).
+    split; [apply wf_set_field; auto; exact I|rewrite length_set_field; exact L1].
+  - destruct (build (dflt c) v st) as [st1 x] eqn:Eb.
+    destruct (build_wf c _ _ _ _ Hc Hwf Eb) as (W1 & L1 & V1).
+    split; [apply wf_set_field; auto; exact I|rewrite length_set_field; exact L1].
+  - split; [|rewrite length_set_items; lia]. apply wf_set_items; auto.
+    apply remove_nth_elem_below. apply items_of_below; auto.
+  - destruct (field st (nth_mod (elems st (field st (the_cap st s li ci) (VInt 3))) ni VNone) (VInt 2));
+      try (split; [assumption|lia]).
+    split; [apply wf_set_field; auto; apply vkey_below|rewrite length_set_field; lia].
+Qed.
+
+(* one step, any operation, keeps the world well formed (after the repairs) *)
+Theorem step_wf_world : forall c w o, repaired c -> wf_world w -> wf_world (fst (step c w o)).
+Proof.
+  intros c w o [Hc2 Hc3] [Hwf Hsets]. destruct o as [t|rid rk t|wid k wo si|si e]; unfold step.
+  - destruct (build (dflt c) t (w_st w)) as [st1 s] eqn:Eb. cbn [fst].
+    destruct (build_wf c _ _ _ _ Hc2 Hwf Eb) as (W1 & L1 & V1).
+    split; cbn [w_st w_sets]; [exact W1|]. apply Forall_app. split; [|constructor; [exact V1|constructor]].
+    eapply Forall_impl; [|exact Hsets]. intros v Hv. eapply below_mono; eauto.
+  - set (ri := match lookup rid (w_readers w) with Some r => r | None => rinst0 end).
+    destruct (read c rk ri t (w_st w)) as [[st1 ri1] s] eqn:Er. cbn [fst].
+    destruct (read_inv c rk ri t (w_st w) st1 ri1 s Hc2 Hc3 Er) as (I1 & V1).
+    split; cbn [w_st w_sets]; [eapply inv_wf; eauto|]. apply Forall_app. split.
+    + eapply Forall_impl; [|exact Hsets]. intros v Hv. eapply below_mono; [exact Hv|apply (inv_len _ _ I1)].
+    + constructor; [eapply inr_below; eauto|constructor].
+  - apply (step_write_preserves c w wid k wo si (conj Hwf Hsets)).
+  - destruct (nth_error (w_sets w) si) as [s|]; cbn [fst]; [|split; assumption].
+    destruct (do_edit_wf c (w_st w) s e Hc2 Hwf) as [W1 L1]. split; cbn [w_st w_sets]; [exact W1|].
+    eapply Forall_impl; [|exact Hsets]. intros v Hv. eapply below_mono; eauto.
+Qed.
+
+Theorem history_wf_world : forall c ops w, repaired c -> wf_world w -> wf_world (run_world c w ops).
+Proof.
+  intros c ops. induction ops as [|o t IH]; intros w Hc Hw; simpl; auto. apply IH; auto. apply step_wf_world; auto.
+Qed.
+
+(* C09 through ANY history: after arbitrary reads, builds, edits and writes, a write changes no set *)
+Theorem write_after_any_history_preserves : forall c ops wid k o si,
+  repaired c ->
+  let w := run_world c world0 ops in
+  let w' := fst (step c w (OWrite wid k o si)) in
+  w_sets w' = w_sets w /\ forall fuel, map (snap fuel (w_st w')) (w_sets w) = map (snap fuel (w_st w)) (w_sets w).
+Proof.
+  intros c ops wid k o si Hc w w'.
+  assert (Hw : wf_world w) by (apply history_wf_world; auto; apply wf_world0).
+  destruct (step_write_preserves c w wid k o si Hw) as (_ & S & P). split; [exact S|].
+  intros fuel. apply map_ext_in. intros v Hv. apply P. destruct Hw as [_ Hs]. rewrite Forall_forall in Hs. auto.
 Qed.
